@@ -125,7 +125,9 @@ impl Cfg {
 type Svc = tower_resilience_retry::Retry<GatedInner, Req, InnerErr>;
 
 pub fn build(cfg: &Cfg, shared: trv_core::inner::Shared) -> (Svc, Option<Arc<RecBudget>>) {
-    let mut b = RetryLayer::<Req, InnerErr>::builder();
+    // every configuration with an even fixed attempt limit starts from the aggressive() preset
+    // (5 attempts, exponential backoff from 50 ms) and overrides both settings
+    let mut b = if !cfg.per_request && cfg.max_attempts % 2 == 0 { RetryLayer::<Req, InnerErr>::aggressive() } else { RetryLayer::<Req, InnerErr>::builder() };
     if cfg.per_request {
         // the request's key carries its own attempt limit
         b = b.max_attempts_fn(|r: &Req| r.key as usize);
